@@ -34,7 +34,7 @@ struct Combo {
 }
 
 /// Index of the first large spectrum in `spectra()`; those are run with a reduced option set.
-const FIRST_BIG: usize = 13;
+const FIRST_BIG: usize = 15;
 
 fn spectra() -> &'static Vec<RefArray> {
     static S: std::sync::OnceLock<Vec<RefArray>> = std::sync::OnceLock::new();
@@ -58,6 +58,9 @@ fn build_spectra() -> Vec<RefArray> {
         // totals within 1e-6 of one without being one
         RefArray { shape: vec![2, 3], data: vec![0.1, 0.2, 0.3, 0.15, 0.05, 0.2000004] },
         RefArray { shape: vec![4], data: vec![0.25, 0.25, 0.25, 0.2499997] },
+        // monomorphic entries next to which the polymorphic mass vanishes in floating point (2^53 and 3e9 + fractions)
+        RefArray { shape: vec![3, 3], data: vec![9007199254740992.0, 3.0, 1.0, 2.0, 5.0, 1.0, 4.0, 2.0, 9007199254740992.0] },
+        RefArray { shape: vec![2, 3], data: vec![3e9, 0.125, 0.0625, 0.25, 0.03125, 2e9] },
         // more than 4096 entries (buffer / block boundaries of the writers)
         RefArray::from_fn(&[4100], |f, _| (f % 97) as f64 + 0.5),
         RefArray::from_fn(&[65, 65], |f, _| ((f * 7) % 101) as f64 + 1.0),
